@@ -41,7 +41,7 @@ def main():
         # partial run: rows of the changes that were not run again are kept, marked with the commit they were run at
         done = {(r[0], r[1]) for r in rows}
         for line in open(res_path):
-            m = re.match(r"\| (C\d\d-\d) \| (C\d\d) \| (.*?) \| (.*?) \|( run at (\w+) \|)?$", line.strip())
+            m = re.match(r"\| (C\d\d-\d) \| (C\d\d) \| ([^|]*?) \| ([^|]*?) \|( (\w+) \|)?$", line.strip())
             if m and (m.group(1), m.group(2)) not in done and os.path.isdir(os.path.join(ROOT, "seeded", m.group(1))):
                 rows.append((m.group(1), m.group(2), m.group(3), m.group(4), m.group(6) or OLD_HEAD))
         rows.sort(key=lambda r: (r[0], r[1]))
